@@ -381,6 +381,13 @@ func muts() []mut {
 		{"unknown=BA", tm(func(t *T) { t.ProtoReflect().SetUnknown(unk([2]uint64{1001, 2}, [2]uint64{1000, 1})) })},
 		{"unknown=AA'", tm(func(t *T) { t.ProtoReflect().SetUnknown(unk([2]uint64{1000, 1}, [2]uint64{1000, 2})) })},
 		{"unknown=A'A", tm(func(t *T) { t.ProtoReflect().SetUnknown(unk([2]uint64{1000, 2}, [2]uint64{1000, 1})) })},
+		// a field number that comes twice with another number in between (records of one number are compared as a
+		// group, in their order; the order of the groups does not matter)
+		{"unknown=ABA'", tm(func(t *T) { t.ProtoReflect().SetUnknown(unk([2]uint64{1000, 1}, [2]uint64{1001, 2}, [2]uint64{1000, 3})) })},
+		{"unknown=BAA'", tm(func(t *T) { t.ProtoReflect().SetUnknown(unk([2]uint64{1001, 2}, [2]uint64{1000, 1}, [2]uint64{1000, 3})) })},
+		{"unknown=AA'B", tm(func(t *T) { t.ProtoReflect().SetUnknown(unk([2]uint64{1000, 1}, [2]uint64{1000, 3}, [2]uint64{1001, 2})) })},
+		{"unknown=AA'A'", tm(func(t *T) { t.ProtoReflect().SetUnknown(unk([2]uint64{1000, 1}, [2]uint64{1000, 3}, [2]uint64{1000, 3})) })},
+		{"unknown=A'BA", tm(func(t *T) { t.ProtoReflect().SetUnknown(unk([2]uint64{1000, 3}, [2]uint64{1001, 2}, [2]uint64{1000, 1})) })},
 		// the Change message
 		{"change_time=nil", cm(func(c *traits.PullOnOffResponse_Change) { c.ChangeTime = nil })},
 		{"change_time+1s", cm(func(c *traits.PullOnOffResponse_Change) { c.ChangeTime = &timestamppb.Timestamp{Seconds: t0 + 1} })},
